@@ -1,5 +1,5 @@
 (* C08 — property theorems.  Nothing but statements, `exact`, Print Assumptions. *)
-From G08 Require Import Cfg Spec Proofs V1Proofs SegProofs BoundProofs InvProofs Obligations Refuted.
+From G08 Require Import Tables Cfg Spec Check Proofs V1Proofs SegProofs BoundProofs InvProofs SpecProofs OracleProofs MainProofs Once Obligations Refuted.
 Open Scope N_scope.
 
 (* v2: a well-formed header followed by ANY payload is accepted, the advertised addresses are returned and the
@@ -57,6 +57,17 @@ Theorem T08_bounded_consumption : forall bs,
 Proof. exact (read_bounded src_cfg ob_common ob_v1 ob_v2). Qed.
 Print Assumptions T08_bounded_consumption.
 
+(* THE PROPERTY on the model: a well-formed header followed by any payload, cut into TCP segments in any way and read
+   through Conn: RemoteAddr / LocalAddr are the advertised source / destination (the socket's own for LOCAL and
+   UNKNOWN), and what the application reads next is exactly the payload *)
+Theorem T08_conn_reports_advertised : forall hd a payload cs sock_r sock_l,
+  wf_header hd a -> concat cs = hd ++ payload ->
+  exists h rest, read_chunked src_cfg cs = Ok h rest /\ concat rest = payload /\
+    remote_addr src_cfg (read_chunked src_cfg cs) sock_r = adv_remote a sock_r /\
+    local_addr src_cfg (read_chunked src_cfg cs) sock_l = adv_local_addr a sock_l.
+Proof. exact (conn_reports_advertised src_cfg T08_exact_handover). Qed.
+Print Assumptions T08_conn_reports_advertised.
+
 (* whatever bytes arrive, in whatever segmentation: RemoteAddr and LocalAddr of the accepted connection are never nil *)
 Theorem T08_no_missing_addr : forall (cs : list str) sock,
   remote_addr src_cfg (read_chunked src_cfg cs) sock <> None /\ local_addr src_cfg (read_chunked src_cfg cs) sock <> None.
@@ -76,6 +87,43 @@ Theorem T08_failed_header_uses_socket : forall (cs : list str) sock t rest,
   remote_addr src_cfg (read_chunked src_cfg cs) sock = Some sock /\ local_addr src_cfg (read_chunked src_cfg cs) sock = Some sock.
 Proof. exact (conn_addr_err rd_chunks src_cfg). Qed.
 Print Assumptions T08_failed_header_uses_socket.
+
+(* once-only shared result: any number of concurrent callers of Read / Write / RemoteAddr / LocalAddr / Header, any
+   interleaving: ReadHeader is executed at most once and every caller that returned saw the outcome of that execution *)
+Theorem T08_once : forall (R : Type) (res : nat -> R) n s,
+  steps R res t_once_recheck t_once_fast (init R n) s ->
+  (reads R s <= 1)%nat /\ forall i r, nth_error (pcs R s) i = Some (Done R r) -> r = Some (res 0%nat).
+Proof. exact (fun R res => once_only R res t_once_recheck t_once_fast ob_once). Qed.
+Print Assumptions T08_once.
+
+Theorem T08_once_refuted_without_recheck : forall (R : Type) (res : nat -> R) o_fast,
+  exists s, steps R res false o_fast (init R 2) s /\ reads R s = 2%nat.
+Proof. exact twice_without_recheck. Qed.
+
+(* the run-time oracle is the theorems' predicate: verdict 0 on an observation of the implementation means ... *)
+Theorem T08_oracle_sound : forall c, is_bytes (r_in c) = true -> rcase_verdict c = 0 ->
+  (r_ok c = true ->
+     exists hd rest a, r_in c = hd ++ rest /\ wf_header hd a /\ adv_matches a (r_hdr c) = true /\
+                       N.of_nat (length hd) = r_consumed c /\ has_addrs (r_hdr c) = true) /\
+  (r_ok c = false -> forall hd a rest, r_in c = hd ++ rest -> ~ wf_header hd a).
+Proof. exact rcase_verdict_sound. Qed.
+Print Assumptions T08_oracle_sound.
+
+Theorem T08_oracle_sound_conn : forall c, is_bytes (cc_in c) = true -> ccase_verdict c = 0 ->
+  cc_remote c <> None /\ cc_local c <> None /\
+  ((exists hd a rest, cc_in c = hd ++ rest /\ wf_header hd a /\ cc_read_ok c = true /\ cc_payload c = rest /\
+                      cc_remote c = adv_remote a (cc_sock_remote c) /\ cc_local c = adv_local_addr a (cc_sock_local c))
+   \/ ((forall hd a rest, cc_in c = hd ++ rest -> ~ wf_header hd a) /\ cc_read_ok c = false /\ cc_payload c = [])).
+Proof. exact ccase_verdict_sound. Qed.
+Print Assumptions T08_oracle_sound_conn.
+
+(* ... and the recogniser finds every well-formed header, and only those *)
+Theorem T08_oracle_complete : forall hd a p, wf_header hd a -> spec_find (hd ++ p) = Some (a, length hd).
+Proof. exact spec_complete. Qed.
+Theorem T08_oracle_recogniser_sound : forall bs a n, is_bytes bs = true -> spec_find bs = Some (a, n) ->
+  exists hd rest, bs = hd ++ rest /\ length hd = n /\ wf_header hd a.
+Proof. exact spec_sound. Qed.
+Print Assumptions T08_oracle_recogniser_sound.
 
 (* What the machinery found on the pinned tree (model of snapshot 5024b31). *)
 Theorem T08_no_missing_addr_refuted_on_pinned_tree :
